@@ -19,6 +19,8 @@ PAR = "crates/lib/mimium-lang/src/compiler/parser/"
 # (id, file, old, new, kind, unit[, harnesses])
 EDITS = {
     "C08": [
+        ("wm01", "crates/lib/mimium-lang/src/runtime/wasm/engine.rs", "                        if next_global_state.len() != state_patch_plan.total_size {", "                        if next_global_state.len() < state_patch_plan.total_size {", "verus", "state_tree"),
+        ("wm02", "crates/lib/mimium-lang/src/runtime/wasm/engine.rs", "                    if old_skel == new_skel && state_patch_plan.patches.is_empty() {", "                    if old_skel == new_skel || state_patch_plan.patches.is_empty() {", "verus", "state_tree"),
         ("rs01", "crates/lib/mimium-lang/src/runtime/vm.rs", "        let patch_plan = state_tree::build_state_storage_patch_plan(\n            self.prog\n                .get_dsp_state_skeleton()", "        let patch_plan = state_tree::build_state_storage_patch_plan(\n            new_vm.prog\n                .get_dsp_state_skeleton()", "verus", "state_tree"),
         ("rs02", "crates/lib/mimium-lang/src/runtime/vm.rs", "                state_tree::apply_state_storage_patch_plan(&self.global_states.rawdata, &plan);", "                state_tree::apply_state_storage_patch_plan(&new_vm.global_states.rawdata.clone(), &plan);", "verus", "state_tree"),
         ("st01", ST + "tree.rs", ".take(child_idx)", ".take(child_idx + 1)", "verus", "state_tree"),
